@@ -1,6 +1,7 @@
 package main
 
 import (
+	"os"
 	"bytes"
 	"fmt"
 	"math"
@@ -385,6 +386,9 @@ func runCborTags(payload string) string {
 		return "panic"
 	}
 	if e != nil {
+		if os.Getenv("VERIF_DEBUG") != "" {
+			return "err " + e.Error()
+		}
 		return "err"
 	}
 	at := &TD{k: "a", rt: primKinds["a"]}
@@ -392,6 +396,24 @@ func runCborTags(payload string) string {
 }
 
 func genCborTags(g *G, tier string, emit func(string)) {
+	// kept failures (D22): a null for a typed map / slice / array inside a tagged struct, then an untagged map or
+	// array as the next sibling of the enclosing untyped container
+	{
+		hdr := "(env (16 s s) (102 (mp (st 16) i) (mp s i) (sl (mp (st 16) i)) (ar 2 (mp (st 16) i)))) (atlas 0 (e (st 16) 54 (tr 6 s)) (e (st 102) 92560 (smap (fld 6261 (0) (mp (st 16) i) 0 0) (fld 62 (1) (mp s i) 0 0) (fld 73 (2) (sl (mp (st 16) i)) 0 0) (fld 61 (3) (ar 2 (mp (st 16) i)) 0 0))))"
+		for _, body := range []string{"a1626261f6", "a2626261f66162a1617801", "a16173f6", "a16161f6", "a3626261f66173f66161f6", "a2626261a1636b3a7601617381a0"} {
+			for _, next := range []string{"a1617201", "8101", "a0", "a161726178"} {
+				emit(hdr + " | a2636b6579da00016990" + body + "637a7a5f" + next)
+				emit(hdr + " | 82da00016990" + body + next)
+			}
+		}
+	}
+	{
+		hdr := "(env (101 (pt i8)) (16 s s) (102 (mp (st 16) i) (mp s i) (pt u) (mp s f64)) (20 i64) (17 s i64) (18 s i64) (100 (st 101) (st 102) (st 20) (st 17))) (atlas 0 (e (st 101) 65535 (smap (fld 6162 (0) (pt i8) 0 0))) (e (st 16) 54 (tr 6 s)) (e (mp s f64) - (mm 0)) (e (st 102) 92560 (smap (fld 42 (2) (pt u) 0 0) (fld 62 (1) (mp s i) 1 0) (fld 6261 (0) (mp (st 16) i) 0 0) (fld - (3) (mp s f64) 0 0))) (e (st 20) - (smap (fld 72 (0) i64 0 0))) (e (st 17) 60843 (tr 7 (st 18))) (e (st 18) 255 (smap (fld 6b (0) s 1 0) (fld 6e (1) i64 1 0))) (e (st 100) - (smap (fld 6261 (3) (st 17) 0 0) (fld 6b6579 (1) (st 102) 0 0) (fld 7a7a (0) (st 101) 1 0) (fld 7a7a5f (2) (st 20) 0 0))))"
+		e2 := "636b6579da00016990a46142f66162a2603b7fffffffffffffff6278313a07ffffff626261f660f6"
+		emit(hdr + " | a2" + e2 + "637a7a5fa161721b0400000000000002")
+		emit(hdr + " | a2" + e2 + "637a7a5fa1617201")
+		emit(hdr + " | a3" + e2 + "637a7a5fa161720161718101")
+	}
 	n := 4000
 	if tier == "thorough" {
 		n = 80000
